@@ -124,7 +124,7 @@ PLANS = {
                      "digits); a coverage cell is (layout, radix, grid/tie/hair-from-tie/near-tie/generic/malformed, fits/over+/over-, digit "
                      "count class, sign); non-trivial = well-formed and non-zero",
                 need_ops=["ps10", "ps2", "ps8", "ps16"]),
-    "C09": dict(module="fmtm", streams=[ST_FMT], profiles=["release", "checked"],
+    "C09": dict(exhaustive={"thorough": True}, module="fmtm", streams=[ST_FMT], profiles=["release", "checked"],
                 rule="one event = one (layout, value, trait, flag set, width, precision) formatted through a trait object, plus one round-trip "
                      "event (to_string, FromStr of it) per value; traits Display/Debug/Binary/Octal/LowerHex/UpperHex, flag sets "
                      "{none,+,#,0,+#0,<,^,>,*^,*<+#}, widths {none,0,1,7,40,150}, precisions {none,0,1..4,around frac bits,<60,<=200}; values are "
@@ -152,13 +152,13 @@ PLANS = {
                      "patterns for 8-bit layouts) so that a Frac-dependent encoding is visible; a coverage cell is (layout, class(pattern)); "
                      "non-trivial = pattern != 0",
                 need_ops=["cd"]),
-    "C06": dict(module="round", streams=[ST_ROUND], profiles=["release", "checked"],
+    "C06": dict(exhaustive={"thorough": True}, module="round", streams=[ST_ROUND], profiles=["release", "checked"],
                 rule="one event = one (layout, value) with all 23 rounding-method outcomes; values are boundary constants, structured "
                      "patterns and integer/half-integer neighbours (k, k+-ulp, k+1/2, k+1/2+-ulp) at both ends of the range; thorough "
                      "enumerates every value of all 8- and 16-bit layouts; a coverage cell is (layout, class(value), fraction class "
                      "int/lo/tie/hi, which of ceil/floor/round/ties-even overflow); non-trivial = value != 0 and fraction != 0",
                 need_ops=["round"]),
-    "C07": dict(module="rem", streams=[ST_REM], profiles=["release", "checked"],
+    "C07": dict(exhaustive={"thorough": True}, module="rem", streams=[ST_REM], profiles=["release", "checked"],
                 rule="one event = one (layout, dividend, divisor) with all remainder / Euclidean forms (fixed or integer divisor); divisors "
                      "include 0, +-1 ulp, MIN, the dividend and its negation, and partners solved so the quotient lands within 2 ulp of a "
                      "range bound; thorough enumerates all operand pairs of the 18 eight-bit layouts; a coverage cell is (layout, op, "
@@ -190,8 +190,12 @@ TP = {
             ["sqrt", "log2", "ln", "exp", "pow", "sin", "cos", "tan"], {"quick": 20, "thorough": 398}, ["release"], ["release"]),
 }
 for _p, (_r, _ops, _nl, _qp, _tp) in TP.items():
-    PLANS[_p] = dict(module="transm", streams=[ST_TRANS], profiles=_tp, quick_profiles=_qp, rule=TRANS_RULE + _r,
-                     need_ops=_ops, nlay=_nl)
+    _st = dict(ST_TRANS)
+    # the driver only executes the functions the property judges (operand streams are unchanged)
+    _st["args"] = ["--fns", ",".join(_ops + (["powi"] if _p == "C12" else []))] if _p != "C12" else []
+    _sw = [(f, "i") for f in _ops if f not in ("pow", "powi")] + ([("sqrt", "u")] if "sqrt" in _ops else [])
+    PLANS[_p] = dict(module="transm", streams=[_st], profiles=_tp, quick_profiles=_qp, rule=TRANS_RULE + _r,
+                     need_ops=_ops, nlay=_nl, sweeps=_sw)
 
 
 def _floor(plan, tier, nlay_expected):
@@ -238,6 +242,14 @@ def plan(prop, tier, seed):
                                                 "--shard", "%d/%d" % (s, shards)] + st["args"] + st["args_tier"].get(tier, []),
                                            mon=[PY, MON, P.get("module_by_body", {}).get(st["body"], P["module"]), prop, prof] + P.get("mon_args", []),
                                            timeout=1800 if tier == "quick" else 4 * 3600))
+            if P.get("sweeps") and tier == "thorough":
+                # exhaustive I9F23 / U9F23 sweeps: every bit pattern is executed, the in-driver f64 screen
+                # (at half tolerance) selects the events the exact oracle re-judges
+                for (fn, ty) in P["sweeps"]:
+                    for s in range(16):
+                        js.append(dict(kind="pipe", body="sweep",
+                                       drv=[bin_path("fast", "sweep"), "--fn", fn, "--ty", ty, "--seed", str(seed), "--shard", "%d/16" % s],
+                                       mon=[PY, MON, P["module"], prop, "release"], timeout=4 * 3600))
             if P.get("miri") and tier == "thorough":
                 # supplementary UB interpreter over the one path that crosses a dependency with `unsafe`
                 # (SCALE / serde codecs): the same driver under Miri, a few hundred events, same monitor.
@@ -254,6 +266,14 @@ def plan(prop, tier, seed):
         out = dict(P)
         out.update(build={p: set(bins) for p in profiles}, jobs=jobs, floor=_floor(P, tier, nlay), assumptions=ASSUME,
                    body=P["streams"][0]["body"])
+        if P.get("sweeps") and tier == "thorough":
+            out["build"]["fast"] = {"sweep"}
+            out["exhaustive"] = {"thorough": True}
+            out["rule"] = P["rule"] + ("; thorough additionally EXECUTES EVERY bit pattern of I9F23 (and U9F23 for sqrt) for %s "
+                                       "(sin/cos on |x| <= 200, tan on |x| <= 100): an in-driver f64 screen at half the tolerance, every "
+                                       "panic/abort/Err needing justification and a 1-in-2^15 sample are re-judged by the exact oracle; "
+                                       "coverage.extra.sweep_patterns_executed counts the executed patterns (exhaustive=true refers to "
+                                       "these I9F23/U9F23 scopes only)" % ", ".join(sorted(set(f for f, _ in P["sweeps"]))))
         return out
     import plans_extra
     return plans_extra.plan(prop, tier, seed)
